@@ -45,6 +45,22 @@ Section C19.
        exists i, i < rcap K P t /\ is_occ K P (tget (slots K P t) i) = true /\ sval K P (tget (slots K P t) i) = Some (k, p)) /\
     NoDup (map fst (occ_vals K P t (N.to_nat (rcap K P t)))).
   Proof. exact (iter_exactly_once K P hash t). Qed.
+  (* the full operation set of the property: insert / remove / get / clear / reserve(n) for ANY n / iteration, in any order.
+     Every call returns ROk; reserve changes no observable content; iteration lists every stored (key, value) pair of
+     the map exactly once (no key twice, nothing else), in some order; the rest as above. *)
+  Theorem C19_every_history_with_reserve_and_iteration l :
+    N.of_nat (length l) + 2 <= 2 ^ 61 -> Forall (res_small K P) l ->
+    exists t' obs, xrun K P keqb hash (new_raw K P) l = ROk _ (t', obs) /\ xspec K P keqb (fun _ => None) l obs /\
+      WF K P hash t' /\ Refines K P t' (xfinal K P keqb (fun _ => None) l).
+  Proof. exact (raw_history_x_new K P keqb keqb_spec hash l). Qed.
+  Theorem C19_reserve t add : WF K P hash t -> rlen K P t + add <= 2 ^ 62 ->
+    exists t1, reserve K P t add = ROk _ t1 /\ WF K P hash t1 /\ rlen K P t1 = rlen K P t /\ add <= rfree K P t1 /\
+      (forall k p, holds_kv K P t1 k p <-> holds_kv K P t k p).
+  Proof. exact (reserve_any_ok K P hash t add). Qed.
+  Theorem C19_iteration t m : WF K P hash t -> Refines K P t m ->
+    NoDup (map fst (iter K P t)) /\ (forall k p, In (k, p) (iter K P t) <-> m k = Some p) /\
+    N.of_nat (length (iter K P t)) = rlen K P t.
+  Proof. exact (iter_spec K P hash t m). Qed.
   Theorem C19_new_is_well_formed : WF K P hash (new_raw K P).
   Proof. exact (WF_new K P hash). Qed.
 End C19.
@@ -55,4 +71,7 @@ Print Assumptions C19_lookup_terminates.
 Print Assumptions C19_clear.
 Print Assumptions C19_iteration_length.
 Print Assumptions C19_iteration_exactly_once.
+Print Assumptions C19_every_history_with_reserve_and_iteration.
+Print Assumptions C19_reserve.
+Print Assumptions C19_iteration.
 Print Assumptions C19_new_is_well_formed.
